@@ -15,6 +15,8 @@ inline void* g_origin = nullptr;            // start of the address space the of
 inline std::ptrdiff_t g_lo = 0, g_hi = 0;   // registered storage [lo, hi) (element offsets)
 inline long g_oob_deref = 0;                // dereferences outside the registered storage
 inline void xptr_bounds(std::ptrdiff_t lo, std::ptrdiff_t hi) { g_lo = lo; g_hi = hi; }
+// optional: a harness with several storages / element types registers a predicate on the BYTE offset from g_origin instead
+inline bool (*g_in_bounds)(std::ptrdiff_t byte_off) = nullptr;
 
 constexpr std::ptrdiff_t null_off = -(static_cast<std::ptrdiff_t>(1) << 60);
 
@@ -44,7 +46,7 @@ class xptr {
 
 	reference operator*() const {
 #if PTR_KIND == 2
-		if(off_ < g_lo || off_ >= g_hi) { ++g_oob_deref; }
+		if(g_in_bounds != nullptr ? !g_in_bounds(off_ * static_cast<std::ptrdiff_t>(sizeof(T))) : (off_ < g_lo || off_ >= g_hi)) { ++g_oob_deref; }
 #endif
 		return *(static_cast<T*>(const_cast<std::remove_cv_t<T>*>(static_cast<std::remove_cv_t<T> const*>(g_origin))) + off_);
 	}
